@@ -167,7 +167,19 @@ wait:
 		cmd.Wait()
 		return "child-not-ready", nil
 	}
+	overlapping := false // a burst with both SIGINT and SIGTERM: sent 30 ms apart so that the second arrives while the
+	// (slow) shutdown callbacks of the first are running; which handler exits the process first is a race, so the Stop
+	// events of the SIGTERM handler are not reported for such a burst
+	hasI, hasT := false, false
 	for _, s := range sigs {
+		hasI = hasI || s == syscall.SIGINT
+		hasT = hasT || s == syscall.SIGTERM
+	}
+	overlapping = hasI && hasT
+	for i, s := range sigs {
+		if overlapping && i > 0 {
+			time.Sleep(30 * time.Millisecond)
+		}
 		cmd.Process.Signal(s)
 	}
 	var evs []string
@@ -179,6 +191,9 @@ collect:
 		case l, ok := <-lines:
 			if !ok {
 				break collect
+			}
+			if overlapping && strings.HasPrefix(l, "st") {
+				continue
 			}
 			evs = append(evs, l)
 		case <-deadline:
@@ -208,6 +223,11 @@ func c16SignalGen(g *hx.Gen) {
 		{"S:f1/-/", "R:f2/-/", "R:f2,f3/-/s"}, {"S:f1/startup/"}, {"S:f1/-/", "S:f2/-/s", "R:f1/-/"},
 	}
 	signals := []string{"TERM", "INT", "QUIT", "TERM,TERM,TERM", "HUP,TERM", "HUP,HUP,INT", "TERM,TERM,TERM,TERM,TERM,TERM,TERM,TERM"}
+	// a second shutdown signal of the other kind arriving WHILE the callbacks of the first are still running
+	for _, s := range [][]string{{"S:f1/-/w"}, {"S:f1,n2/-/w", "S:f3/-/"}, {"S:f1/-/", "R:f1,f2/-/w"}} {
+		g.Case(append(append([]string(nil), s...), "!INT,TERM")...)
+		g.Case(append(append([]string(nil), s...), "!TERM,INT")...)
+	}
 	if !g.Thorough() {
 		for i, s := range setups {
 			for j, sg := range signals {
